@@ -86,6 +86,8 @@ Inductive obs :=
 | OErr
 | ONt (r : option (string * value))
 | OBad                         (* an observation the harness could not canonicalise *)
+| OSelf                        (* an attribute read on an INSTANCE handed back the tunable object *)
+| ODone                        (* the harness changed the owner's truthiness (no library call) *)
 | OAny.                        (* masked: access to a tunable that is not bound (instance not set
                                   up yet, or a private name setup_tunables skips) -- the property
                                   says nothing about it *)
@@ -112,6 +114,20 @@ Fixpoint all2 {A B : Type} (f : A -> B -> bool) (l1 : list A) (l2 : list B) : bo
 
 Definition hist_ok (c : list op * list obs) : bool :=
   all2 ev_match (snd (run w0 (fst c))) (snd c).
+
+(* histories in which the owners' truthiness (bool(instance): __len__ /
+   __bool__ of the owner class) changes as well; OSelf matches only XSelf,
+   which the model never emits for a read on an instance *)
+Definition xev_match (e : xevent) (o : obs) : bool :=
+  match e, o with
+  | XEv e', _ => ev_match e' o
+  | XSelf, OSelf => true
+  | XDone, ODone => true
+  | _, _ => false
+  end.
+
+Definition xhist_ok (c : list xop * list obs) : bool :=
+  all2 xev_match (snd (xrun x0 (fst c))) (snd c).
 
 Fixpoint bad_from {A : Type} (ok : A -> bool) (i : nat) (l : list A) : list nat :=
   match l with
